@@ -375,13 +375,44 @@ func (w *world) genOp() *op {
 	}
 }
 
-func runCase(seed uint64, conc bool) (string, bool, string, map[string]any, []string) {
+// A scripted case: fixed operations and a fixed schedule (minimal witnesses of past findings, always run first).
+type schedEntry struct {
+	client, steps int // let `client` perform up to `steps` accesses
+	fault         mb.Decision
+}
+type script struct {
+	name  string
+	ops   [][]*op
+	sched []schedEntry
+}
+
+const base0 = uint32(10 << 24)
+
+var scripts = []*script{
+	// one request for 3 addresses; the first block (2 addresses) fills only partially
+	{name: "requested-count", ops: [][]*op{{{kind: "aa", h: 1, tag: 1, num: 3}}}, sched: []schedEntry{{0, 1000, mb.Proceed}}},
+	// AssignIP whose block update (7th access) hits a write conflict and is retried
+	{name: "assignip-conflict", ops: [][]*op{{{kind: "aip", h: 1, tag: 1, addr: base0}}},
+		sched: []schedEntry{{0, 6, mb.Proceed}, {0, 1, mb.Conflict}, {0, 1000, mb.Proceed}}},
+	// a 3-address release lists the handles, then another client assigns the address with an existing handle,
+	// then the release runs on and decrements from its stale copy of the handle
+	{name: "stale-handle-copy", ops: [][]*op{{{kind: "aa", h: 1, tag: 1, num: 2}}, {{kind: "aa", h: 1, tag: 1, num: 1}},
+		{{kind: "rel", rel: []relOpt{{base0 + 2, 0}, {base0 + 2, 0}, {base0 + 2, 0}}}}},
+		sched: []schedEntry{{0, 1000, mb.Proceed}, {2, 1, mb.Proceed}, {1, 1000, mb.Proceed}, {2, 1000, mb.Proceed}}},
+}
+
+func runCase(seed uint64, conc bool, sc *script) (string, bool, string, map[string]any, []string) {
 	r := &rng{s: seed}
-	cfg := config{base: 10<<24 | 0<<16 | 0<<8 | 0}
+	cfg := config{base: base0}
 	cfg.bsize = []int{2, 4, 4, 4, 8}[r.intn(5)]
 	cfg.nblocks = []int{2, 4, 4, 8}[r.intn(4)]
 	cfg.hosts = 1 + r.intn(3)
+	if sc != nil {
+		cfg.bsize, cfg.nblocks, cfg.hosts = 2, 2, 1
+	}
 	switch k := r.intn(10); {
+	case sc != nil:
+		cfg.strict, cfg.autoalloc = false, true
 	case k < 6:
 		cfg.strict, cfg.autoalloc = false, true
 	case k < 8:
@@ -440,6 +471,9 @@ func runCase(seed uint64, conc bool) (string, bool, string, map[string]any, []st
 	if conc || r.chance(30) {
 		pConflict = 4 + r.intn(12)
 	}
+	if sc != nil {
+		nclients, barrier, crashy, pConflict = len(sc.ops), false, false, 0
+	}
 
 	clients := make([]*clientState, nclients)
 	pa := &pools{pool: pool}
@@ -455,9 +489,16 @@ func runCase(seed uint64, conc bool) (string, bool, string, map[string]any, []st
 		cs := clients[i]
 		ic := ipam.NewIPAMClient(sched.Client(i), pa, noReservations{})
 		hostname := fmt.Sprintf("n%d", cs.host)
+		nops := opsPer
+		if sc != nil {
+			nops = len(sc.ops[i])
+		}
 		runner.Start(i, func() {
-			for k := 0; k < opsPer; k++ {
+			for k := 0; k < nops; k++ {
 				o := w.genOp()
+				if sc != nil {
+					o = sc.ops[cs.id][k]
+				}
 				cs.ops = append(cs.ops, o)
 				curOp[cs.id] = k
 				res := &result{}
@@ -519,6 +560,7 @@ func runCase(seed uint64, conc bool) (string, bool, string, map[string]any, []st
 	crashed := map[int]bool{}
 	crashes, conflicts, steps := 0, 0, 0
 	last := -1
+	scPos := 0
 	for {
 		pend := runner.Pending()
 		if len(pend) == 0 {
@@ -548,11 +590,38 @@ func runCase(seed uint64, conc bool) (string, bool, string, map[string]any, []st
 				}
 			}
 		}
+		scriptFault := mb.Proceed
+		if sc != nil {
+			id = -1
+			for scPos < len(sc.sched) && id < 0 {
+				e := &sc.sched[scPos]
+				isPending := false
+				for _, pid := range pend {
+					if pid == e.client {
+						isPending = true
+					}
+				}
+				if e.steps <= 0 || !isPending {
+					scPos++
+					continue
+				}
+				e.steps--
+				id, scriptFault = e.client, e.fault
+			}
+			if id < 0 {
+				id = pend[0]
+			}
+		}
 		last = id
 		call := runner.Peek(id)
 		dec := mb.Proceed
 		isWrite := call.Op == "create" || call.Op == "update" || call.Op == "delete"
-		if (call.Op == "update" || call.Op == "delete") && r.chance(pConflict) {
+		if sc != nil {
+			dec = scriptFault
+			if dec == mb.Conflict {
+				conflicts++
+			}
+		} else if (call.Op == "update" || call.Op == "delete") && r.chance(pConflict) {
 			dec = mb.Conflict
 			conflicts++
 		} else if crashy && crashes == 0 && isWrite && r.chance(6) {
@@ -761,6 +830,9 @@ func runCase(seed uint64, conc bool) (string, bool, string, map[string]any, []st
 	if barrier {
 		tags = append(tags, "barrier")
 	}
+	if sc != nil {
+		tags = append(tags, "witness:"+sc.name)
+	}
 	nt := nAssign > 0 && released
 	if conc {
 		nt = nAssign > 0 && (sawConflict || crashes > 0)
@@ -786,6 +858,7 @@ func main() {
 	seed := flag.Uint64("seed", 1, "seed")
 	mode := flag.String("mode", "mixed", "seq | conc | mixed")
 	only := flag.Int("only", -1, "emit only the case with this index (replay)")
+	noScripts := flag.Bool("no-scripts", false, "do not start with the scripted witness cases")
 	flag.Parse()
 	enc := json.NewEncoder(os.Stdout)
 	for i := 0; i < *n; i++ {
@@ -793,7 +866,13 @@ func main() {
 			continue
 		}
 		conc := *mode == "conc" || (*mode == "mixed" && i%2 == 1)
-		coq, nt, key, sample, tags := runCase(*seed*1000003+uint64(i)*7919, conc)
+		var sc *script
+		if i < len(scripts) && !*noScripts {
+			c := *scripts[i]
+			c.sched = append([]schedEntry(nil), c.sched...)
+			sc = &c
+		}
+		coq, nt, key, sample, tags := runCase(*seed*1000003+uint64(i)*7919, conc && sc == nil, sc)
 		sample["replay_args"] = fmt.Sprintf("-n %d -seed %d -mode %s -only %d", i+1, *seed, *mode, i)
 		_ = enc.Encode(line{Coq: coq, NT: nt, Key: key, Sample: sample, Tags: tags})
 	}
